@@ -476,6 +476,7 @@ const TPLS: &[Tpl] = &[
     Tpl { key: "std06", kind: Kind::Std, game: "th06", head: STD06_META, open: "script main {\n", close: "}\n", ireg: 0, freg: 0 },
     Tpl { key: "msg06", kind: Kind::Msg, game: "th06", head: MSG06_META, open: "script main {\n", close: "}\n", ireg: 0, freg: 0 },
     Tpl { key: "end10", kind: Kind::End, game: "th10", head: MSG06_META, open: "script main {\n", close: "}\n", ireg: 0, freg: 0 },
+    Tpl { key: "ecl10", kind: Kind::Ecl, game: "th10", head: "meta {\n    ecli: [],\n    anim: [],\n}\n", open: "void main() {\n", close: "}\n", ireg: -10000, freg: -9988 },
     Tpl { key: "tl08", kind: Kind::Ecl, game: "th08", head: "", open: "script timeline0 {\n", close: "}\nvoid sub0() {}\n", ireg: 0, freg: 0 },
 ];
 fn tpl(key: &str) -> Tpl { *TPLS.iter().find(|t| t.key == key).unwrap_or_else(|| panic!("no template {key}")) }
@@ -529,6 +530,7 @@ fn seeds() -> Vec<Seed> {
     add("ecl08-expr", Kind::Ecl, "th08", "script timeline0 {}\nvoid sub0() {\n    int a = I0 + 2;\n    F0 = (F1 + 1.0) * 2.0;\n    I1 = 3:4:5:6;\n    {\"H\"}: nop();\n    if (a < 5 && I1 != 0) { I0 = a; } else { I0 = a > 3 ? 1 : 2; }\n    I0 = -I1 + (a % 2);\n}\n".into(), Some(ECL_NAMES_08));
     add("ecl08-timeline", Kind::Ecl, "th08", "script 1 second {\n    ins_0(sub0, 1.0, 2.0, 4, 5, 6);\n10:\n    ins_9(3);\n}\nscript 0 first {\n    ins_16();\n}\nvoid sub0() {\nagain:\n    ins_0();\n+8:\n    if ($REG[10000] != 0) goto again;\n    sub1();\n}\nvoid sub1() {}\n".into(), None);
     add("ecl08-call", Kind::Ecl, "th08", "script timeline0 {}\nconst float K = 1.5;\nvoid sub0() {\n    sub1(1, 2, K, $REG[10000]);\n    times(3) { sub1(0, 0, 0.0, 0); }\n}\nvoid sub1(int a, int b, float c, int d) {\n    $REG[10000] = a + b + d;\n    %REG[10016] = c;\n}\n".into(), None);
+    add("ecl10-basic", Kind::Ecl, "th10", "meta {\n    ecli: [\"a.ecl\"],\n    anim: [\"b.anm\"],\n}\nvoid main() {\n    ins_40(8);\n10:\n    ins_17(3);\n    ins_10();\n}\nvoid other() {\n    ins_20(1, 2);\n+5:\n    ins_1();\n}\n".into(), None);
     add("ecl08-loops", Kind::Ecl, "th08", "script timeline0 {}\nvoid sub0() {\n    float f = 1.0;\n    int n = 0;\n    while (n < 3) { n += 1; f *= 2.0; }\n    do { n -= 1; } while (n > 0);\n    unless (f >= 4.0) { %REG[10016] = f; }\n    times(n = 2) { $REG[10000] = n; }\n}\n".into(), None);
     v
 }
@@ -641,7 +643,7 @@ fn byte_cases(seed_ix: usize, op: &str, seeds: &[Seed], thorough: bool) -> Vec<C
 // (iv) extreme literals
 
 const LIT_CHUNK: usize = 4;
-const LIT_TPLS: &[&str] = &["anm12", "ecl08", "ecl06", "std12", "msg12", "anm06", "end10", "tl08"];
+const LIT_TPLS: &[&str] = &["anm12", "ecl08", "ecl06", "std12", "msg12", "anm06", "end10", "tl08", "ecl10"];
 
 fn rep(s: &str, n: usize) -> String { s.repeat(n) }
 
@@ -940,6 +942,14 @@ fn map_cases(sub: &str, key: &str) -> Vec<Case> {
                 ("var and ins share a name".into(), format!("{magic}\n!ins_names\n1 foo\n!gvar_names\n1 foo\n")), ("ins_rets".into(), format!("{magic}\n!ins_rets\n1 S\n2 x\n")),
             ];
             for (l, m) in texts { push(valid_map_body(t.kind), m.clone(), l.clone()); push("", m, format!("{l} (unused)")); }
+            // every section header `!enum(name=<s>` and `!enum<s>` for s of length <= 4 over the punctuation the header grammar uses
+            let alpha = ["\"", ")", "(", "a", "="];
+            let mut layer = vec![String::new()]; let mut all = vec![String::new()];
+            for _ in 0..4 { let mut next = vec![]; for p in &layer { for a in alpha { next.push(format!("{p}{a}")); } } all.extend(next.iter().cloned()); layer = next; }
+            for x in &all {
+                push("", format!("{magic}\n!enum(name={x}\n1 a\n"), format!("section header `!enum(name={x}`"));
+                push("", format!("{magic}\n!enum{x}\n1 a\n"), format!("section header `!enum{x}`"));
+            }
         },
         "del" => {
             let vm = valid_map(t.kind);
@@ -952,6 +962,21 @@ fn map_cases(sub: &str, key: &str) -> Vec<Case> {
                 push(body, m, format!("delete line {i} `{}`", lines[i]));
                 let m: String = lines.iter().enumerate().map(|(j, l)| if j == i { format!("{l}\n{l}\n") } else { format!("{l}\n") }).collect();
                 push(body, m, format!("duplicate line {i} `{}`", lines[i]));
+            }
+        },
+        "byte" => {
+            let vm = valid_map(t.kind);
+            let body = valid_map_body(t.kind);
+            let b = vm.as_bytes();
+            let ins: &[&str] = &["\"", "(", ")", "=", ";", "!", "\n", " ", "0", "-", "\u{e9}", "\0"];
+            for i in 0..=b.len() {
+                if !vm.is_char_boundary(i) { continue; }
+                push(body, vm[..i].to_string(), format!("valid mapfile truncated at byte {i}"));
+                for x in ins { push(body, format!("{}{}{}", &vm[..i], x, &vm[i..]), format!("insert {:?} at byte {i}", x)); }
+                if i < b.len() {
+                    let mut j = i + 1; while !vm.is_char_boundary(j) { j += 1; }
+                    push(body, format!("{}{}", &vm[..i], &vm[j..]), format!("delete byte {i}"));
+                }
             }
         },
         "attr" => for sig in ATTR_SIGS { for (vl, vb) in SIG_VARIANTS {
@@ -998,7 +1023,19 @@ fn map_cases(sub: &str, key: &str) -> Vec<Case> {
             ];
             let uses = ["", "ins_2000(a);", "ins_2000(Foo.a);", "ins_2000(Bar.a);", "ins_2000(1);", "ins_2000(b);", "ins_2001(true);", "ins_2001(maybe);", "ins_2001(bool.true);", "ins_2000(Foo.nosuch);", "ins_2000(NoEnum.a);", "ins_2000(a + 1);",
                 "const int a = 5;\n    ins_2000(a);", "ins_2000(sprite5);", "ins_2000(AnmSprite.sprite0);", "int a = 3;\n    ins_2000(a);"];
-            for (l, sec) in &secs { for u in uses { push(u, format!("{head}{sec}"), format!("enum section: {l}; use `{}`", u.replace('\n', " "))); } }
+            for (l, sec) in &secs { for u in uses {
+                push(u, format!("{head}{sec}"), format!("enum section: {l}; use `{}`", u.replace('\n', " ")));
+                // the same with the enum named by the signature always defined, so that "no such enum 'Foo'" cannot mask the section under test
+                if !sec.contains("name=\"Foo\"") { push(u, format!("{head}!enum(name=\"Foo\")\n7 fooseven\n{sec}"), format!("enum section (Foo defined): {l}; use `{}`", u.replace('\n', " "))); }
+            } }
+            // every builtin enum x redefinition of one of its own consts / a new const / a clashing value
+            for en in ["bool", "BitmapColorFormat", "AnmSprite", "AnmScript", "EclSub", "MsgScript", "TimelineSub"] {
+                for (k, v) in [("0", "true"), ("1", "true"), ("5", "true"), ("1", "false"), ("0", "false"), ("3", "Argb8888"), ("1", "Argb8888"), ("7", "newconst"), ("0", "sprite0"), ("9", "sprite0"), ("0", "script0"), ("9", "script0")] {
+                    for u in ["", "ins_2001(true);", "ins_2000(fooseven);"] {
+                        push(u, format!("{head}!enum(name=\"Foo\")\n7 fooseven\n!enum(name=\"{en}\")\n{k} {v}\n"), format!("builtin enum {en} gets `{k} {v}`; use `{u}`"));
+                    }
+                }
+            }
         },
         s if s.starts_with("sig") => {
             let var: usize = s[3..].parse().unwrap();
@@ -1018,7 +1055,7 @@ fn map_cases(sub: &str, key: &str) -> Vec<Case> {
 // =============================================================================================
 // (vii) well-formed inputs that fail in a later stage, alone and in pairs
 
-const LATE_TPLS: &[&str] = &["anm12", "ecl06", "ecl08", "anm06", "anm16", "ecl07", "std12", "msg12", "std06"];
+const LATE_TPLS: &[&str] = &["anm12", "ecl06", "ecl08", "anm06", "anm16", "ecl07", "std12", "msg12", "std06", "ecl10"];
 
 /// (body, items appended to the file)
 fn late_faults(t: &Tpl) -> Vec<(String, String, bool)> {
@@ -1162,7 +1199,7 @@ fn other_items(thorough: bool) -> Vec<String> {
     // small chunks: the inputs that make truth hang or abort cost two timeouts each and should not queue up behind one another
     for k in LIT_TPLS.iter().chain(["mission095"].iter()) { for c in 0..(lit_cases(k).len() + LIT_CHUNK - 1) / LIT_CHUNK { v.push(format!("lit:{k}:{c}")); } }
     for sh in NEST_SHAPES { for k in nest_tpls(sh) { v.push(format!("nest:{sh}:{k}")); } }
-    for sub in ["num", "hdr", "del", "attr", "intr", "diff", "enum"] { for k in MAP_TPLS { v.push(format!("map:{sub}:{k}")); } }
+    for sub in ["num", "hdr", "del", "byte", "attr", "intr", "diff", "enum"] { for k in MAP_TPLS { v.push(format!("map:{sub}:{k}")); } }
     for k in MAP_TPLS { for var in 0..SIG_VARIANTS.len() { v.push(format!("map:sig{var}:{k}")); } }
     if thorough { for k in MAP_TPLS { v.push(format!("map:sig3:{k}")); } }
     for k in LATE_TPLS {
